@@ -149,7 +149,7 @@ theorem scanI_val : ∀ (as : List Attr) (n : Nat) (i : Option (Nat × Nat)) (t 
           · rw [if_neg (by simp_all)]; exact ih _ _ _
 
 /-- what the encoder keeps -/
-def kept (a : Attr) : Bool := !(a.loc = .id && a.val = 0)
+def kept (a : Attr) : Bool := !(a.space = .none && a.loc = .id && a.val = 0)
 
 /-- dropping the id attributes with an empty value does not change a non-empty result -/
 theorem scanV_filter : ∀ (as : List Attr) (io jf : Option Nat) (t : Bool) (v : Nat),
@@ -190,25 +190,26 @@ theorem scanV_filter : ∀ (as : List Attr) (io jf : Option Nat) (t : Bool) (v :
       simp only [List.filter_cons, hk', scanV] at h ⊢
       simp [kept] at hk'
       split at h
-      · exact ih _ _ _ _ hr h hv
-      · rw [if_pos hk'.1] at h
+      · rename_i hq; exact absurd hk'.1.1 hq
+      · rw [if_pos hk'.1.2] at h
         split at h
         · grind
         · exact ih _ _ _ _ (Or.inr ⟨by rw [hk'.2], by simpa using ‹¬ t = true›⟩) h hv
 
-/-- no attribute with the local name id: the scan finds nothing -/
-theorem scanV_none : ∀ (as : List Attr) (t : Bool), (∀ a ∈ as, a.loc ≠ .id) → scanV as none t = none := by
+/-- no unqualified id attribute: the scan finds nothing -/
+theorem scanV_none : ∀ (as : List Attr) (t : Bool), (∀ a ∈ as, ¬ (a.space = .none ∧ a.loc = .id)) → scanV as none t = none := by
   intro as
   induction as with
   | nil => intro t _; rfl
   | cons a as ih =>
     intro t h
     have ha := h a (by simp)
-    have ht : ∀ b ∈ as, b.loc ≠ .id := fun b hb => h b (by simp [hb])
-    simp only [scanV, ha, if_false]
+    have ht : ∀ b ∈ as, ¬ (b.space = .none ∧ b.loc = .id) := fun b hb => h b (by simp [hb])
+    simp only [scanV]
     split
     · exact ih _ ht
-    · split
+    · rw [if_neg (by grind)]
+      split
       · simp; exact ih _ ht
       · simp; exact ih _ ht
 
@@ -282,7 +283,7 @@ theorem scanV_append : ∀ (as : List Attr) (t : Bool) (f : Nat), (∀ a ∈ as,
 
 
 theorem encode_eq (f₂ : Nat) (L : List Attr) :
-    encode f₂ L = if (L.filter kept).any (fun a => a.loc = .id) then L.filter kept else L.filter kept ++ [⟨.none, .id, f₂⟩] := rfl
+    encode f₂ L = if (L.filter kept).any (fun a => a.space = .none && a.loc = .id) then L.filter kept else L.filter kept ++ [⟨.none, .id, f₂⟩] := rfl
 
 /-- a non-empty id the call found in its start element is what the peer reads behind the encoder -/
 theorem encode_keeps (f₂ : Nat) (L : List Attr) (idx v : Nat) (h : idOf L = some (idx, v)) (hv : v ≠ 0) :
@@ -302,7 +303,7 @@ theorem encode_keeps (f₂ : Nat) (L : List Attr) (idx v : Nat) (h : idOf L = so
       intro a ha hl
       apply hn
       simp only [List.any_eq_true]
-      exact ⟨a, ha, by simp [hl]⟩
+      exact ⟨a, ha, by simp [hl.1, hl.2]⟩
     rw [this] at hF; simp at hF
 
 /-- the id a blocking call registers under is the id the peer reads on the wire -/
